@@ -14,7 +14,7 @@ import (
 	"verifharness/internal/val"
 )
 
-var c09Floor = []string{"key", "key.missing", "key.on-array", "key.quoted", "key.quoted.steplike", "index", "index.multi", "each", "each.flatten", "keep", "range", "range.begin", "range.end",
+var c09Floor = []string{"key", "key.missing", "key.on-array", "key.quoted", "key.quoted.steplike", "key.quoted.plain", "fn.reregistered", "index", "index.multi", "each", "each.flatten", "keep", "range", "range.begin", "range.end",
 	"pipe", "pipe.string", "pipe.number", "pipe.on-array", "continue", "fn.mix", "fn.distinct", "fn.custom", "err.index-oob", "err.index-negative", "err.range-oob", "err.shape", "err.fn", "null.path", "readme.form"}
 
 func init() {
@@ -49,6 +49,7 @@ func init() {
 		Phases: []fw.Phase{
 			{Name: "grammar", N: func(t fw.Tier) int { return pick(t, 20000, 800000) }, Run: c09Grammar},
 			{Name: "bytes", N: func(t fw.Tier) int { return pick(t, 20000, 600000) }, Run: c09Bytes},
+			{Name: "registry", Batch: 1, N: func(t fw.Tier) int { return pick(t, 6, 40) }, Run: c09Registry},
 		},
 		Witness: c09Witness,
 	})
@@ -208,6 +209,10 @@ func c09Selector(c *fw.Case, doc map[string]any, force string, feats *[]string) 
 	feat := func(f string) { *feats = append(*feats, f) }
 	wantErr := force == "err.index-oob" || force == "err.range-oob" || force == "err.shape" || (force == "" && c.Chance(0.12))
 	errPlaced := false
+	// in a share of the selectors every key is quoted
+	quoteAll := force == "" && c.Chance(0.15)
+	// ... in another share every other key or so
+	quoteSome := force == "" && !quoteAll && c.Chance(0.3)
 	if force == "fn.mix" || force == "fn.distinct" || force == "fn.custom" || force == "err.fn" || c.Chance(0.12) {
 		switch {
 		case force == "fn.mix":
@@ -405,6 +410,12 @@ func c09Selector(c *fw.Case, doc map[string]any, force string, feats *[]string) 
 				if !(ch == '_' || ch >= '0' && ch <= '9' || ch >= 'a' && ch <= 'z' || ch >= 'A' && ch <= 'Z') {
 					ks.Quoted = true
 				}
+			}
+			if !ks.Quoted && (force == "key.quoted.plain" || quoteAll || quoteSome && c.Chance(0.5)) {
+				// a plain key may be quoted too; several quoted keys in one
+				// selector, with steps and continuations between them
+				ks.Quoted = true
+				feat("key.quoted.plain")
 			}
 			if ks.Quoted {
 				feat("key.quoted")
@@ -802,4 +813,44 @@ func c09Witness(c *fw.Case, w *fw.Finding) {
 	if !sameSelValue(got, w.Expect) {
 		c.Violate("value", fmt.Sprintf("witness %s: value differs", w.ID), det)
 	}
+}
+
+
+// c09Registry: `fn=>` applies the function that is registered under the name -
+// also when the application registers its own function under a name the
+// library ships with. Every case is a process of its own (the registry is
+// process-wide), registers at some point of its life and evaluates afterwards.
+func c09Registry(c *fw.Case) {
+	doc := map[string]any{"arr": []any{1.0, "1", 1.0, 2.0, "x"}, "nest": []any{[]any{1.0, 2.0}, []any{3.0}}}
+	name := []string{"distinct", "mix"}[c.Idx%2]
+	if c.Idx%4 < 2 {
+		// the built-in has been used before the application registers its own
+		if _, err, pan, _ := reader(val.CopyMap(doc), "distinct=>arr"); err != nil || pan != nil {
+			c.Violate("error", fmt.Sprintf("distinct=> failed: %v %v", err, pan), map[string]any{"doc": doc})
+			return
+		}
+		reader(val.CopyMap(doc), "mix=>nest")
+	}
+	genql.RegisterTopLevelFunction(name, func(v any) (any, error) {
+		arr, ok := v.([]any)
+		if !ok {
+			return nil, fmt.Errorf("not an array")
+		}
+		return float64(len(arr)), nil // the application's function: counts
+	})
+	c.Feature("fn.reregistered")
+	sel := strings.ToLower(name) + "=>arr"
+	got, err, pan, _ := reader(val.CopyMap(doc), sel)
+	c.Evals(1)
+	c.Sample(map[string]any{"registered_as": name, "selector": sel, "observed": val.Show(got)})
+	det := map[string]any{"registered_as": name, "selector": sel, "doc": doc, "observed": val.Show(got), "observed_error": fmt.Sprint(err)}
+	if pan != nil {
+		c.Violate("panic", fmt.Sprintf("panic: %v", pan), det)
+		return
+	}
+	if err != nil || !val.Equal(got, 5.0) {
+		c.Violate("value", fmt.Sprintf("`%s` does not apply the function registered under %q: got %s (error %v), the registered function returns 5", sel, name, short(val.Canon(got), 100), err), det)
+		return
+	}
+	c.Nontrivial(sel + name)
 }
